@@ -113,6 +113,7 @@ def gen(seed, tier="quick"):
     rate = knobs.choice([0.005, 0.02, 0.05])
 
     msgs = []
+    msgs_have_mag = [False]
     n_steps = int(round(tf / dt_imu))
     next_mag = 0.0
     ts_offset = 0.0
@@ -178,13 +179,24 @@ def gen(seed, tier="quick"):
                 mag = R.T @ B_n
                 mm = {"kind": "mag", "t_pub": tk, "ts": tk + ts_offset, "mag": mag.tolist(), "fault": None, "q_true": q.tolist()}
                 r2 = flt.random()
+                if init_run and not msgs_have_mag[0] and flt.random() < 0.35:
+                    r2 = 0.0  # land a fault on the sample the node will initialise from
+                    enabled_first = [kk for kk in ("mag_vertical", "sensor_zero_norm", "sensor_scale", "sensor_spike")]
+                    for kk in enabled_first:
+                        enabled[kk] = True
+                msgs_have_mag[0] = True
+                first_sample_fault = r2 == 0.0
                 if r2 < rate * 2:
                     kinds = [kk for kk in ("mag_vertical", "sensor_zero_norm", "sensor_scale", "msg_drop", "msg_dup", "sensor_spike") if enabled[kk]]
+                    if first_sample_fault:
+                        kinds = ["mag_vertical", "mag_vertical", "sensor_zero_norm", "sensor_scale", "sensor_spike"]
                     if kinds:
                         mt = flt.choice(kinds)
                         mm["fault"] = mt
                         if mt == "mag_vertical":
-                            mm["mag"] = (R.T @ np.array([0, 0, flt.choice([-1, 1]) * mag_str]) + 1e-4 * mag_str * _rand_unit(flt)).tolist()
+                            mm["mag"] = (R.T @ np.array([0, 0, flt.choice([-1, 1]) * mag_str]) + flt.choice([0.0, 1e-9, 1e-4, 0.05]) * mag_str * _rand_unit(flt)).tolist()
+                            if flt.random() < (0.6 if first_sample_fault else 0.3):
+                                mm["mag"] = (flt.choice([-1, 1]) * flt.choice([1e-3, 0.05, 1.0]) * accel).tolist()  # exactly (anti)parallel to the accelerometer vector
                         elif mt == "sensor_zero_norm":
                             mm["mag"] = [0.0, 0.0, 0.0]
                         elif mt == "sensor_scale":
@@ -284,7 +296,7 @@ def run(scn):
     probes = {"shadow_switch_taken": 0, "accel_rejected_magnitude": 0, "mag_rejected_vertical": 0, "mag_rejected_tilt_uncertainty": 0,
               "dt_nonpositive_seen": 0, "check_nan_raised": 0, "init_judged": 0, "init_refused": 0, "predict_judged": 0,
               "correct_accepted": 0, "correct_rejected": 0, "out_of_domain_calls": 0, "rate_limit_skips": 0, "corrections_spacing_checked": 0,
-              "gross_accel_in_domain": 0, "state_poisoned_out_of_domain": 0}
+              "gross_accel_in_domain": 0, "state_poisoned_out_of_domain": 0, "init_consistency_judged": 0}
     ctx = {"ts": None, "kind": None, "fault": None, "q_true": None}
     model_params = {"mrp/dt_min_accel": 1.0 / 200, "mrp/dt_min_mag": 1.0 / 200, "mrp/mag_decl": 0.0}
     last_corr = {"accel": None, "mag": None}
@@ -320,6 +332,23 @@ def run(scn):
         if code != 0:
             probes["init_refused"] += 1
             return
+        # accepted: the returned attitude must be the one that produced these two vectors, whatever
+        # they are - it takes the measured specific force to "up" and the measured field into the
+        # vertical plane through magnetic north (declination east of true north)
+        ng, nB = float(np.linalg.norm(g_b)), float(np.linalg.norm(B_b))
+        if ng > 0 and nB > 0:
+            probes["init_consistency_judged"] += 1
+            R_est = rm.quat_to_R(rm.mrp_to_quat(x0[:3]))
+            down_err = float(np.linalg.norm(R_est @ (-g_b / ng) - np.array([0.0, 0.0, 1.0])))
+            Bw = rm.Rz(-decl) @ (R_est @ (B_b / nB))
+            horiz = math.hypot(Bw[0], Bw[1])
+            head_err = abs(Bw[1]) if Bw[0] > 0 else horiz
+            worst["init_err"] = max(worst["init_err"], down_err, head_err)
+            # heading is conditioned by the horizontal field component (>= sin 10 deg by the gate)
+            if not (down_err <= INIT_TOL and head_err <= INIT_TOL):
+                violation("C11", "init_wrong_attitude", "eqs['mrp'].initialize",
+                          "initialize returned code 0 but its attitude maps the measured gravity %.3e away from vertical and the measured field %.3e out of the magnetic-north plane (decl=%r; g_b=%s, B_b=%s)" % (
+                              down_err, head_err, decl, g_b.tolist(), B_b.tolist()), decl_zero=bool(decl == 0.0))
         # judged only when both vectors were produced by the same true attitude, unfaulted
         pair = ctx.get("init_pair")
         if pair is None:
